@@ -70,7 +70,9 @@ def defaultOf (o : OptSpec) : Option Val :=
   | .flag => some (.bool false)
   | .flagOff => some (.bool true)
   | .const _ => some .none
-  | .value => some .none
+  | .value => some (match o.dflt with
+      | some d => .str d
+      | Option.none => .none)
   | .count => some (.nat 0)
   | .optChoice _ d => some (.str d)
   | .help => Option.none
@@ -191,6 +193,7 @@ structure PS where
   run : Run
   extras : Bool
   afterDD : Bool
+  used : List Name := []  -- first strings of the options taken so far (for `required=True`)
   deriving Repr
 
 def posSpecs (tbl : List OptSpec) : List OptSpec := tbl.filter (fun o => !o.isOpt)
@@ -275,7 +278,7 @@ def addWord (tbl : List OptSpec) (ps : PS) (w : Name × Bool) : PS :=
   | .done => { ps with extras := true }
 
 /-- end of the arguments: pending positionals match the empty run or are "required" -/
-def finish (tbl : List OptSpec) (ps : PS) : Except Fail PS :=
+def finishPos (tbl : List OptSpec) (ps : PS) : Except Fail PS :=
   match ps.run with
   | .opened _ => .ok (closeRun tbl ps)
   | .done => .ok ps
@@ -300,7 +303,16 @@ def mutexOk (o : OptSpec) (ps : PS) : Option PS :=
     else some { ps with seen := keyOf o :: ps.seen }
   else some ps
 
-def setv (o : OptSpec) (v : Val) (ps : PS) : PS := { ps with ns := ps.ns.set (destOf o) v }
+def setv (o : OptSpec) (v : Val) (ps : PS) : PS :=
+  { ps with ns := ps.ns.set (destOf o) v, used := keyOf o :: ps.used }
+
+/-- some `required=True` option of the table was not given -/
+def missingReq (tbl : List OptSpec) (used : List Name) : Bool :=
+  tbl.any (fun o => o.isOpt && o.required && !used.contains (keyOf o))
+
+/-- end of the arguments: required options, then the pending positionals -/
+def finish (tbl : List OptSpec) (ps : PS) : Except Fail PS :=
+  if missingReq tbl ps.used then .error (.exit 2) else finishPos tbl ps
 
 /-- an action without argument: `store_true`, `store_false`, `store_const`, `count`, help -/
 def applyNoArg (o : OptSpec) (ps : PS) : Except Fail PS :=
